@@ -18,6 +18,11 @@ oracle:         synthetic packages written with zipfile + hand-written XML; ever
                 class (family / data style / list style / page layout) the (attribute, host element) asks for.
                 A site that resolved before and dangles or resolves to another marker afterwards fails with
                 sig=<kind>:<attribute>:<placement>[:noclash][+tag].  Independent of the model.
+sessions:       the same judgement for every (sub)document of a history in ONE process: packages with embedded objects
+                (Object <n>/content.xml + styles.xml, siblings, nested), a package whose load() raises (the manifest lists
+                a member the archive does not hold) followed by ordinary ones, several packages loaded one after the other
+                and all kept alive, saved in every order, documents built through the API in between.  Each document is
+                judged on its own source parts; the model is driven through the session (`loadSession`, op `sess`).
 """
 import io, os, re, json, zipfile
 import xml.parsers.expat
@@ -397,11 +402,17 @@ def master_xml(sites):
     return ''.join(pages)
 
 
+def frames_xml(folders):
+    """the frames through which a document shows its embedded objects (none for an ordinary package)"""
+    return ''.join('<text:p><draw:frame svg:width="5cm" svg:height="2cm"><draw:object xlink:href="./%s" xlink:type="simple" '
+                   'xlink:show="embed" xlink:actuate="onLoad"/></draw:frame></text:p>' % esc(f) for f in folders)
+
+
 def build_parts(spec):
     content = ('<?xml version="1.0" encoding="UTF-8"?>\n<office:document-content %s office:version="1.2">'
                '<office:scripts/><office:font-face-decls/><office:automatic-styles>%s</office:automatic-styles>'
                '<office:body><office:text>%s</office:text></office:body></office:document-content>'
-               % (XMLNS, ''.join(def_xml(d) for d in spec['cauto']), site_xml(spec['body'])))
+               % (XMLNS, ''.join(def_xml(d) for d in spec['cauto']), site_xml(spec['body']) + frames_xml(spec.get('frames', ()))))
     styles = ('<?xml version="1.0" encoding="UTF-8"?>\n<office:document-styles %s office:version="1.2">'
               '<office:font-face-decls/><office:styles>%s</office:styles><office:automatic-styles>%s</office:automatic-styles>'
               '<office:master-styles>%s</office:master-styles></office:document-styles>'
@@ -510,9 +521,9 @@ def view_of_doc(doc):
     return View(auto, mem_tree(doc.body), mem_tree(doc.styles)[2], auto, mem_tree(doc.masterstyles))
 
 
-def view_of_zip(data):
+def view_of_zip(data, folder=''):
     z = zipfile.ZipFile(io.BytesIO(data))
-    return view_of_parts(z.read('content.xml'), z.read('styles.xml'))
+    return view_of_parts(z.read(folder + 'content.xml'), z.read(folder + 'styles.xml'))
 
 
 def marker_of(t):
@@ -659,12 +670,18 @@ def oracle(spec, T, loader):
         saved = view_of_zip(out.getvalue())
         rounds.append({'mv': mv, 'fix': fix, 'mem': sites_of(mv, T), 'saved': saved, 'after': sites_of(saved, T)})
     rounds[-1]['mem_end'] = sites_of(view_of_doc(doc), T)
+    fails, stats = judge(src, before, rounds, rounds[-1]['mem_end'], T, spec.get('tag'))
+    return fails, stats, (src, doc, rounds)
+
+
+def judge(src, before, rounds, mem_end, T, tag, label=''):
+    """the property on one (sub)document: `before` = the reference sites of its source parts, `rounds` = the document in
+    memory before each save and the parts each save wrote for it, `mem_end` = the document in memory at the very end"""
     cnames = set(t[1].get(STYLE_NAME) for t in src.cauto)
     snames = set(t[1].get(STYLE_NAME) for t in src.sauto)
     fails = []
     stats = {'sites': 0, 'resolved_before': 0, 'preserved_saved': 0, 'preserved_mem': 0, 'clash_sites': 0, 'owner_not_written': 0,
              'packages_saved': len(rounds)}
-    tag = spec.get('tag')
     for key in sorted(before, key=repr):
         b = before[key]
         stats['sites'] += 1
@@ -686,9 +703,9 @@ def oracle(spec, T, loader):
                                    mconfig(src, b['name']), ('+' + tag) if tag else '')
         views = []
         for k, rd in enumerate(rounds):
-            views.append(('loaded document before save #%d' % (k + 1), rd['mem'], False))
-            views.append(('package of save #%d' % (k + 1), rd['after'], True))
-        views.append(('loaded document after save #%d' % len(rounds), rounds[-1]['mem_end'], False))
+            views.append((label + 'loaded document before save #%d' % (k + 1), rd['mem'], False))
+            views.append((label + 'package of save #%d' % (k + 1), rd['after'], True))
+        views.append((label + 'loaded document after save #%d' % len(rounds), mem_end, False))
         for where, res, is_pkg in views:
             r = res.get(key)
             sig = sig0
@@ -712,7 +729,7 @@ def oracle(spec, T, loader):
                               % (where, b['host'], b['attr'], r['name'], key[1], region, def_kind(b['target']), m,
                                  ('to the one marked %s' % m2) if m2 is not None else
                                  ('dangles (value "%s")' % r['name']))))
-    return fails, stats, (src, doc, rounds)
+    return fails, stats
 
 
 # ------------------------------------------------------------------ the matrix
@@ -1046,6 +1063,297 @@ def gen_random(rng, DP):
     return spec, {'block': 'random', 'collisions': ncoll, 'kinds': kinds, 'mnames': mcfg, 'layout': spec['layout']}
 
 
+# ------------------------------------------------------------------ sessions: embedded objects, several packages in one process
+# The property speaks of a loaded package: it does not matter what else the process has loaded, failed to load, built or
+# saved before, nor whether the (sub)document is the top-level one or sits in `Object <n>/`.  A session is a history
+#   ['load', k]   load package k (kept alive until the end)          ['save', k]   save the document loaded from package k
+#   ['build']     build a document through the API (never judged: it only uses the library)
+# over packages  {'parts': [[folder, spec], ...] ('' first, then 'Object 1/', 'Object 1/Object 2/', ...),
+#                 'fault': None | a member the manifest lists although the archive does not hold it,  'objects_first': bool}
+# Every (sub)document of every package that could be loaded is judged on its own source parts, exactly as `oracle` does.
+FAULTS = ['Pictures/gone.png', 'Thumbnails/thumbnail.png', 'Configurations2/accelerator/current.xml', 'layout-cache',
+          'Object 1/Pictures/gone.png']
+
+
+def build_compound(pk):
+    """-> (package bytes, {folder: (content.xml, styles.xml)}); written with zipfile + hand-written XML"""
+    parts = {}
+    order = []
+    for folder, spec in pk['parts']:
+        parts[folder] = build_parts(spec)
+        order.append(folder)
+    entries = ['<manifest:file-entry manifest:full-path="/" manifest:version="1.2" manifest:media-type="%s"/>' % MIME]
+    seq = order[1:] + order[:1] if pk.get('objects_first') else order
+    for folder in seq:
+        if folder:
+            entries.append('<manifest:file-entry manifest:full-path="%s" manifest:media-type="%s"/>' % (esc(folder), MIME))
+        for n in ('content.xml', 'styles.xml'):
+            entries.append('<manifest:file-entry manifest:full-path="%s%s" manifest:media-type="text/xml"/>' % (esc(folder), n))
+    if pk.get('fault'):
+        entries.append('<manifest:file-entry manifest:full-path="%s" manifest:media-type="%s"/>'
+                       % (esc(pk['fault']), 'image/png' if pk['fault'].endswith('.png') else 'application/binary'))
+    manifest = ('<?xml version="1.0" encoding="UTF-8"?>\n<manifest:manifest xmlns:manifest="%s" manifest:version="1.2">%s'
+                '</manifest:manifest>' % (NS['manifest'], ''.join(entries))).encode('utf-8')
+    buf = io.BytesIO()
+    z = zipfile.ZipFile(buf, 'w')
+    z.writestr(zipfile.ZipInfo('mimetype'), MIME.encode('ascii'))
+    for folder in seq:
+        z.writestr(folder + 'content.xml', parts[folder][0], zipfile.ZIP_DEFLATED)
+        z.writestr(folder + 'styles.xml', parts[folder][1], zipfile.ZIP_DEFLATED)
+    z.writestr('META-INF/manifest.xml', manifest, zipfile.ZIP_DEFLATED)
+    z.close()
+    return buf.getvalue(), parts
+
+
+def subdocuments(doc):
+    """{folder in the package: (sub)document}, by plain traversal of `childobjects`"""
+    out = {'': doc}
+    todo = [doc]
+    while todo:
+        d = todo.pop()
+        for c in d.childobjects:
+            out[c.folder.lstrip('/') + '/'] = c
+            todo.append(c)
+    return out
+
+
+def api_built_document():
+    """what a program does next to loading packages: a document of its own, with automatic styles numbered from 1"""
+    from odf.opendocument import OpenDocumentText
+    from odf.style import Style, TextProperties
+    from odf.text import P as Para, Span
+    d = OpenDocumentText()
+    for nm, fam in ((u'P1', u'paragraph'), (u'T1', u'text'), (u'MP1', u'paragraph'), (u'P1', u'paragraph')):
+        st = Style(name=nm, family=fam)
+        st.addElement(TextProperties(color=u'#010203'))
+        d.automaticstyles.addElement(st)
+    p = Para(stylename=u'P1'); p.addElement(Span(stylename=u'T1', text=u'built'))
+    d.text.addElement(p)
+    out = io.BytesIO(); d.save(out)
+    return d
+
+
+def session_oracle(sess, T, loader):
+    """returns (failures, stats, trips); trips = [(package index, folder, source view, rounds)] for the correspondence"""
+    built = [build_compound(pk) for pk in sess['packages']]
+    docs = {}               # package index -> {folder: document}
+    rounds = {}             # (package index, folder) -> [round]
+    keep = []               # everything stays alive until the end of the session
+    raised = []
+    stats = {'session_loads': 0, 'session_loads_raised': 0, 'session_saves': 0, 'session_documents_judged': 0}
+    for step in sess['steps']:
+        if step[0] == 'build':
+            keep.append(api_built_document())
+        elif step[0] == 'load':
+            k = step[1]
+            pk = sess['packages'][k]
+            stats['session_loads'] += 1
+            if pk.get('fault'):
+                try:
+                    docs[k] = subdocuments(loader(io.BytesIO(built[k][0])))
+                except Exception:
+                    stats['session_loads_raised'] += 1       # the caller reports it and goes on with the next package
+            else:
+                try:
+                    docs[k] = subdocuments(loader(io.BytesIO(built[k][0])))
+                except Exception as e:
+                    # a complete package: there is no loaded document in which its references could resolve
+                    raised.append(('raised:load:%s' % e.__class__.__name__,
+                                   'step %r: load() of package #%d (every listed member present) raised %r' % (step, k, e)))
+            keep.append(docs.get(k))
+        elif step[0] == 'save':
+            k = step[1]
+            if k not in docs:
+                continue
+            stats['session_saves'] += 1
+            pre = {}
+            for folder in sorted(docs[k]):
+                d = docs[k][folder]
+                pre[folder] = (view_of_doc(d), dict(d._styles_ooo_fix))
+            out = io.BytesIO()
+            try:
+                docs[k][''].save(out)
+            except Exception as e:
+                raised.append(('raised:save:%s' % e.__class__.__name__,
+                               'step %r: save() of the document loaded from package #%d raised %r' % (step, k, e)))
+                continue
+            for folder in sorted(docs[k]):
+                if folder not in built[k][1]:
+                    continue
+                saved = view_of_zip(out.getvalue(), folder)
+                mv, fix = pre[folder]
+                rounds.setdefault((k, folder), []).append({'mv': mv, 'fix': fix, 'mem': sites_of(mv, T), 'saved': saved,
+                                                           'after': sites_of(saved, T)})
+    fails = list(raised)
+    trips = []
+    for k in sorted(docs):
+        have = sorted(docs[k])
+        want = sorted(built[k][1])
+        if have != want:
+            fails.append(('objects:%s' % ('missing' if set(want) - set(have) else 'extra'),
+                          'package #%d: the (sub)documents of the source are %r, those of the loaded document %r' % (k, want, have)))
+        for folder in want:
+            if folder not in docs[k]:
+                continue
+            content, styles = built[k][1][folder]
+            src = view_of_parts(content, styles)
+            before = sites_of(src, T)
+            rds = rounds.get((k, folder), [])
+            mem_end = sites_of(view_of_doc(docs[k][folder]), T)
+            spec = dict(sess['packages'][k]['parts'])[folder]
+            f, st = judge(src, before, rds, mem_end, T, spec.get('tag'),
+                          label='package #%d, %s: ' % (k, ('embedded object %s' % folder) if folder else 'top-level document'))
+            fails += f
+            stats['session_documents_judged'] += 1
+            for a, b in st.items():
+                stats[a] = stats.get(a, 0) + b
+            if rds:
+                trips.append((k, folder, src, rds))
+    return fails, stats, trips
+
+
+def suite_part(pfx, kinds, noclash=False, refs=('body', 'master')):
+    """one (sub)document as an office suite writes it: every part numbers its automatic styles from 1, so content.xml and
+    styles.xml (and every other document of the same suite) use the same names; markers are unique per document"""
+    s = empty_spec()
+    for i, (kind, attr, host) in enumerate(kinds):
+        name = COLLIDING_NAME[kind]
+        s['cauto'].append(sdef(kind, name, '%sA%d' % (pfx, i), mm='attr' if i % 2 == 0 else 'child'))
+        if not noclash:
+            s['sauto'].append(sdef(kind, name, '%sB%d' % (pfx, i), mm='child' if i % 2 == 0 else 'attr'))
+        if 'body' in refs:
+            s['body'].append(site('b%d' % i, attr, host, name))
+        if 'master' in refs and not noclash and host != 'style:master-page':
+            s['master'].append(site('m%d' % i, attr, host, name))
+    s['cauto'].append(sdef('paragraph', 'CtlC', pfx + 'CC')); s['body'].append(site('cb', 'text:style-name', 'text:p', 'CtlC'))
+    s['sauto'].append(sdef('paragraph', 'CtlS', pfx + 'CS')); s['master'].append(site('cm', 'text:style-name', 'text:p', 'CtlS'))
+    return s
+
+
+TEXT_KINDS = [('paragraph', 'text:style-name', 'text:p'), ('text', 'text:style-name', 'text:span')]
+BODY_KINDS = [('graphic', 'draw:style-name', 'draw:frame'), ('table', 'table:style-name', 'table:table'),
+              ('list-style', 'text:style-name', 'text:list'), ('date-style', 'style:data-style-name', 'text:date')]
+
+
+def package_of(parts, fault=None, objects_first=False):
+    """parts = [(folder, spec)]: every document names the objects directly below it in frames of its body"""
+    folders = [f for f, _ in parts]
+    for f, spec in parts:
+        kids = [g[len(f):-1] for g in folders if g != f and g.startswith(f) and '/' not in g[len(f):-1]]
+        if kids:
+            spec['frames'] = kids
+    return {'parts': [[f, s] for f, s in parts], 'fault': fault, 'objects_first': objects_first}
+
+
+def load_save_all(n, order='in-turn'):
+    if order == 'in-turn':
+        return [['load', k] for k in range(n)] + [['save', k] for k in range(n)]
+    if order == 'reverse':
+        return [['load', k] for k in range(n)] + [['save', k] for k in reversed(range(n))]
+    if order == 'interleaved':
+        return [x for k in range(n) for x in (['load', k], ['save', k])] + [['save', 0]]
+    if order == 'twice':
+        return [['load', k] for k in range(n)] + [['save', k] for k in range(n)] + [['save', k] for k in reversed(range(n))]
+    raise ValueError(order)
+
+
+SESSION_ORDERS = ['in-turn', 'reverse', 'interleaved', 'twice']
+
+
+def session_cells():
+    """fixed sessions: where the documents of a process meet"""
+    n = [0]
+
+    def what(text, **kw):
+        n[0] += 1
+        d = {'block': 'session', 'what': text}
+        d.update(kw)
+        return d
+    # 1 embedded objects: the object uses the names of its parent (all four parts number from 1)
+    for main_clash in (True, False):
+        for obj_clash in (True, False):
+            for shape in ('one', 'siblings', 'nested'):
+                for first in (False, True):
+                    parts = [('', suite_part('m', TEXT_KINDS, noclash=not main_clash)),
+                             ('Object 1/', suite_part('o', TEXT_KINDS + BODY_KINDS[:2], noclash=not obj_clash))]
+                    if shape == 'siblings':
+                        parts.append(('Object 2/', suite_part('p', TEXT_KINDS + BODY_KINDS[2:], noclash=obj_clash)))
+                    if shape == 'nested':
+                        parts.append(('Object 1/Object 2/', suite_part('q', TEXT_KINDS, noclash=obj_clash)))
+                    yield ({'packages': [package_of(parts, objects_first=first)], 'steps': load_save_all(1, 'twice' if first else 'in-turn')},
+                           what('embedded objects (%s): top-level document %s a name in both parts, Object 1 %s'
+                                % (shape, 'uses' if main_clash else 'does not use', 'does' if obj_clash else 'does not'),
+                                shape='objects-' + shape))
+    # 2 a package that cannot be loaded (its manifest lists a member the archive does not hold), then an ordinary one
+    for fi, fault in enumerate(FAULTS):
+        for bad_clash in (True, False):
+            for next_clash in (True, False):
+                bad_parts = [('', suite_part('x', TEXT_KINDS, noclash=not bad_clash))]
+                if fault.startswith('Object 1/'):
+                    bad_parts.append(('Object 1/', suite_part('y', TEXT_KINDS, noclash=not bad_clash)))
+                pks = [package_of(bad_parts, fault=fault), package_of([('', suite_part('n', TEXT_KINDS + BODY_KINDS[fi % 2::2], noclash=not next_clash))])]
+                yield ({'packages': pks, 'steps': load_save_all(2, SESSION_ORDERS[fi % 2])},
+                       what('the manifest of the first package lists %s, which is missing; the next package %s'
+                            % (fault, 'reuses a name across its parts' if next_clash else 'has no clash'), shape='after-failed-load'))
+    # 3 several packages loaded one after the other, all kept alive, saved in every order
+    for order in SESSION_ORDERS:
+        for clashes in ((True, True), (True, False), (False, True), (True, True, True)):
+            pks = [package_of([('', suite_part('d%d' % i, TEXT_KINDS + (BODY_KINDS[i::2] if i else []), noclash=not c))])
+                   for i, c in enumerate(clashes)]
+            yield ({'packages': pks, 'steps': load_save_all(len(pks), order)},
+                   what('%d packages of the same suite in one process, saved %s; clash in: %s' % (len(pks), order, list(clashes)),
+                        shape='several-loads'))
+    # 4 the same package loaded twice; a document built through the API before / between the loads
+    for order in SESSION_ORDERS[:2]:
+        pk = package_of([('', suite_part('s', TEXT_KINDS))])
+        yield ({'packages': [pk], 'steps': [['load', 0], ['save', 0], ['load', 0], ['save', 0]]},
+               what('one package loaded again after it was saved', shape='several-loads'))
+        pks = [package_of([('', suite_part('u', TEXT_KINDS))]), package_of([('', suite_part('v', TEXT_KINDS)), ('Object 1/', suite_part('w', TEXT_KINDS))])]
+        steps = load_save_all(2, order)
+        yield ({'packages': pks, 'steps': [['build']] + steps[:1] + [['build']] + steps[1:]},
+               what('documents built through the API before and between the loads (%s)' % order, shape='with-built-documents'))
+
+
+def gen_session(rng, DP):
+    """random sessions: 1-3 packages; each part is a suite part (names numbered from 1) or a random multi-collision
+    package; objects below the top-level document and below objects; some packages cannot be loaded"""
+    def part(pfx):
+        if rng.random() < 0.5:
+            kinds = list(TEXT_KINDS) if rng.random() < 0.8 else []
+            kinds += rng.sample(BODY_KINDS, rng.randint(0, 2))
+            if not kinds:
+                kinds = TEXT_KINDS[:1]
+            return suite_part(pfx, kinds, noclash=rng.random() < 0.3, refs=rng.choice([('body', 'master'), ('body', 'master'), ('body',), ('master',)]))
+        spec, _ = gen_random(rng, DP)
+        spec.pop('saves', None); spec.pop('layout', None)
+        return spec
+    pks = []
+    for i in range(rng.randint(1, 3)):
+        parts = [('', part('g%d' % i))]
+        nobj = rng.choice([0, 0, 1, 1, 2])
+        for j in range(nobj):
+            parts.append(('Object %d/' % (j + 1), part('g%do%d' % (i, j))))
+            if rng.random() < 0.25:
+                parts.append(('Object %d/Object 1/' % (j + 1), part('g%do%dn' % (i, j))))
+        fault = None
+        if rng.random() < 0.25:
+            fault = rng.choice(FAULTS[:4] + [f + 'Pictures/gone.png' for f, _ in parts[1:]])
+        pks.append(package_of(parts, fault=fault, objects_first=rng.random() < 0.5))
+    steps = [['load', k] for k in range(len(pks))]
+    saves = [['save', k] for k in range(len(pks))] + [['save', rng.randrange(len(pks))] for _ in range(rng.randint(0, 2))]
+    rng.shuffle(saves)
+    steps += saves
+    if rng.random() < 0.5:
+        # a save before the next load; a document built through the API somewhere
+        i = rng.randrange(len(pks))
+        steps.insert(i + 1, ['save', i])
+    if rng.random() < 0.3:
+        steps.insert(rng.randrange(len(steps)), ['build'])
+    return ({'packages': pks, 'steps': steps},
+            {'block': 'session', 'shape': 'random', 'packages': len(pks), 'objects': sum(len(pk['parts']) - 1 for pk in pks),
+             'faults': [pk['fault'] for pk in pks if pk['fault']]})
+
+
 # ------------------------------------------------------------------ correspondence with the model (drv_clash)
 def flatten(view, T, marker_index):
     """the package as the model sees it: per container the definitions / reference sites in document order.
@@ -1171,6 +1479,38 @@ def run_case(chk, spec, info, T, loader, lines, pending):
     return fails
 
 
+def run_session(chk, sess, info, T, loader, lines, pending):
+    fails, stats, trips = session_oracle(sess, T, loader)
+    chk.case(json.dumps(sess, sort_keys=True), nontrivial=stats.get('clash_sites', 0) > 0 and
+             (stats['session_loads'] > 1 or any(len(pk['parts']) > 1 for pk in sess['packages'])),
+             sample={'info': info, 'failures': sorted(set(f[0] for f in fails))})
+    chk.count('block_session')
+    chk.count('session_shape_' + info.get('shape', '?'))
+    for k, v in sorted(stats.items()):
+        chk.count(k, v)
+    if not fails:
+        chk.count('sessions_with_every_reference_preserved')
+    seen = set()
+    for sig, detail in fails:
+        if sig in seen:
+            continue
+        seen.add(sig)
+        chk.fail(sig, {'session': sess, 'info': info}, detail)
+    if lines is not None and trips:
+        # the model is driven through the whole session (OdfModel.StyleClash.loadSession, op `sess` of drv_clash): one
+        # request with the source parts of every (sub)document, one answer per document
+        reqs, group = [], []
+        for k, folder, src, rds in trips:
+            mi = {}
+            line, keys = flatten(src, T, mi)
+            before = sites_of(src, T)
+            reqs.append(line[len('pkg '):])
+            group.append(([observe(rd, T, keys, mi, before) for rd in rds], {'session': sess, 'package': k, 'folder': folder}, info))
+        lines.append('sess ' + ' ;; '.join(reqs))
+        pending.append(group)
+    return fails
+
+
 def cell_table(results):
     """(kind-class, attribute, placement) -> holds / fails, for the evidence file"""
     tab = {}
@@ -1190,9 +1530,20 @@ def run(chk, replay=None):
     chk.rule = ('complete matrix: every kind of automatic style (12 families, 7 data-style elements, list style, page layout) x '
                 'every (reference attribute, host element) of the schema below style:master-page / office:body that asks for '
                 'that class x colliding name referenced from {master, body, both, neither}; references inside automatic '
-                'styles before/after the colliding definition; special packages; seeded random multi-collision packages. '
+                'styles before/after the colliding definition; special packages; seeded random multi-collision packages; '
+                'sessions (embedded objects, a failed load before a good one, several packages alive in one process, every save order). '
                 'non-trivial = a reference to a name defined in both parts (or the `neither` control)')
     T = schema_tables(translate_styles.tables())
+    if replay is not None and 'session' in replay['input']:
+        fails, stats, _ = session_oracle(replay['input']['session'], T, load)
+        for sig, detail in fails:
+            print('replay: %s: %s' % (sig, detail))
+        want = replay.get('signature')
+        hit = [f for f in fails if want is None or f[0] == want]
+        print('replay: session of %d loads (%d raised), %d documents judged, %d reference sites, %d failures (%d with the recorded signature)'
+              % (stats['session_loads'], stats['session_loads_raised'], stats['session_documents_judged'], stats.get('sites', 0),
+                 len(fails), len(hit)))
+        return 1 if hit else 0
     if replay is not None:
         spec = replay['input']['spec']
         fails, stats, _ = oracle(spec, T, load)
@@ -1230,8 +1581,22 @@ def run(chk, replay=None):
     for _ in range(nrand):
         spec, info = gen_random(chk.rng, DP)
         results.append((info, run_case(chk, spec, info, T, load, lines, pend)))
-    answers = drv.batch(lines)
-    for (impls, spec, info), model in zip(pend, answers):
+    slines, spend = [], []
+    for sess, info in session_cells():
+        run_session(chk, sess, info, T, load, slines, spend)
+    for _ in range(1000 if chk.tier == 'thorough' else 60):
+        sess, info = gen_session(chk.rng, DP)
+        run_session(chk, sess, info, T, load, slines, spend)
+    answers = drv.batch(lines + slines)
+    pairs = list(zip(pend, answers[:len(lines)]))
+    for group, ans in zip(spend, answers[len(lines):]):
+        models = ans.strip().split(' ;; ')
+        chk.count('sessions_sent_to_the_model')
+        if len(models) != len(group):
+            chk.corr(); chk.corr_diff({'session': group[0][1]['session']}, '%d documents' % len(group), ans[:200], 'one answer per document of the session')
+            continue
+        pairs += list(zip(group, models))
+    for (impls, spec, info), model in pairs:
         chk.corr()
         impl = impls[0]
         model, _, handled = model.strip().partition(' | H ')
@@ -1264,6 +1629,12 @@ def run(chk, replay=None):
                               'holding': sorted(k for k, v in tab.items() if v == 'holds')}
 
     def deep():
+        for _ in range(300):
+            sess, info = gen_session(chk.rng, DP)
+            fails, _, _ = session_oracle(sess, T, load)
+            for sig, detail in fails:
+                if chk.fail(sig, {'session': sess, 'info': info}, detail) == 'violation':
+                    return
         for _ in range(5000):
             spec, info = gen_random(chk.rng, DP)
             fails, _, _ = oracle(spec, T, load)
